@@ -86,7 +86,7 @@ Lemma feed_rest_d n m d s :
   quiet ->
   fst (fst (let r := addmsg n m s in
             let p2 := (apply_reconn (h_reconn r) d, h_st r) in
-            match through_try gen.T07.FEED_ADDMSG_CATCHES (through_fw (fw_state s_addMsg) (h_exc r)) with
+            match through_try_at 3 gen.T07.FEED_ADDMSG_CATCHES (through_fw (fw_state s_addMsg) (h_exc r)) with
             | Some e => (p2, Some e)
             | None =>
                 match run_infilters n m cbs p2 with
@@ -97,7 +97,7 @@ Lemma feed_rest_d n m d s :
             end)) = d.
 Proof.
   intros (Hqd & Hqa & Hqc). cbn zeta. rewrite Hqa. cbn [apply_reconn].
-  destruct (through_try _ _); [reflexivity|].
+  destruct (through_try_at _ _ _); [reflexivity|].
   pose proof (infilters_d n m cbs Hqc (d, h_st (addmsg n m s))) as H1.
   destruct (run_infilters n m cbs _) as [[p3 x] go]. cbn [fst] in H1.
   destruct x; [exact H1|]. destruct go; [|exact H1]. rewrite (calls_d n m cbs Hqc). exact H1.
@@ -150,7 +150,7 @@ Proof.
   destruct (parse_msg vt (decode l)) as [[m|]|e].
   - pose proof (feed_msg_conn (strip gen.T07.PY_WS (decode l)) m p Hq) as Hc.
     pose proof (feed_msg_none St dispatch addmsg cbs (strip gen.T07.PY_WS (decode l)) m p Hd) as Hn.
-    destruct (feed_msg _ m p) as [p' x]. cbn [fst snd] in *. subst x. cbn [through_try]. rewrite IH. exact Hc.
+    destruct (feed_msg _ m p) as [p' x]. cbn [fst snd] in *. subst x. cbn [through_try_at]. rewrite IH. exact Hc.
   - apply IH.
   - destruct (caught _ _); [apply IH|reflexivity].
 Qed.
@@ -231,7 +231,7 @@ Proof.
     cbn [Model.feed_lines] in Ef. rewrite Hp in Ef.
     destruct (feed_msg_ping (strip gen.T07.PY_WS (decode l)) m (d1, s1) a rest Hq Hping Hargs Hv) as [Hq1 _].
     pose proof (feed_msg_none St dispatch addmsg cbs (strip gen.T07.PY_WS (decode l)) m (d1, s1) Hd) as Hn1.
-    destruct (feed_msg _ m (d1, s1)) as [p' x']. cbn [fst snd] in *. subst x'. cbn [through_try] in Ef.
+    destruct (feed_msg _ m (d1, s1)) as [p' x']. cbn [fst snd] in *. subst x'. cbn [through_try_at] in Ef.
     inversion Ef; subst p2. clear Ef.
     cbn. apply in_or_app. left. apply in_or_app. right. rewrite Hq1. apply in_or_app. right. left. reflexivity.
   - assert (Hx : first_match gen.T07.READ_CATCHES x = Some gen.T07.CSocketTimeout /\ x = XTimeout \/
